@@ -1631,4 +1631,3 @@ func replayLine(r *common.Run, l string) error {
 	}
 	return fmt.Errorf("cannot replay line %q", l)
 }
-
